@@ -6,8 +6,8 @@ import RoProofs.TimedPeriodic
 namespace Ro.Timed
 
 theorem range_vals_getElem? (r : RangeRun) (n k : Nat) (dl : Ev)
-    (h : ((r.ticks.take n).mapIdx (fun k t => Ev.at t (.next (rangeVal r.a r.b k))))[k]? = some dl) :
-    k < n ∧ ∃ t, r.ticks[k]? = some t ∧ dl = Ev.at t (.next (rangeVal r.a r.b k)) := by
+    (h : ((r.ticks.take n).mapIdx (fun k t => Ev.at t (.next (rangeVal r.a r.b r.step k))))[k]? = some dl) :
+    k < n ∧ ∃ t, r.ticks[k]? = some t ∧ dl = Ev.at t (.next (rangeVal r.a r.b r.step k)) := by
   rw [List.getElem?_mapIdx, List.getElem?_take] at h
   split at h
   next hlt =>
@@ -17,11 +17,11 @@ theorem range_vals_getElem? (r : RangeRun) (n k : Nat) (dl : Ev)
   next => cases h
 
 theorem range_model_clause (r : RangeRun) (h : RangeWF r) :
-    Clause { op := .rangeWithInterval, d := r.p, a := r.a, b := r.b } (rangeTrace r) := by
+    Clause { op := .rangeWithInterval, d := r.p, a := r.a, b := r.b, step := r.step } (rangeTrace r) := by
   refine ⟨grammarOK_down _ r.unsub _ rfl, silentOK_stopCut _ r.stop r.unsub _ rfl rfl ?_, ?_⟩
   · intro c x hs
     have hfair := h.selectFair c x hs
-    have hvals : ∀ n, lateCount c ((r.ticks.take n).mapIdx (fun k t => Ev.at t (.next (rangeVal r.a r.b k)))) ≤ cancelSlack := by
+    have hvals : ∀ n, lateCount c ((r.ticks.take n).mapIdx (fun k t => Ev.at t (.next (rangeVal r.a r.b r.step k)))) ≤ cancelSlack := by
       intro n
       rw [lateCount_mapIdx c _ _ (fun _ _ => rfl)]
       exact Nat.le_trans ((List.take_sublist n r.ticks).filter _).length_le hfair
@@ -31,21 +31,21 @@ theorem range_model_clause (r : RangeRun) (h : RangeWF r) :
     · have := lateCount_le_length c [Ev.at r.sub .complete]; simp at this; omega
     · split
       · rw [lateCount_append]
-        have h2 := lateCount_le_length c [Ev.at ((r.ticks[(r.b - r.a).natAbs - 1]?).getD 0) .complete]
-        have := hvals (r.b - r.a).natAbs
+        have h2 := lateCount_le_length c [Ev.at ((r.ticks[(rangeCount r.a r.b r.step) - 1]?).getD 0) .complete]
+        have := hvals (rangeCount r.a r.b r.step)
         simp at h2; omega
       · rw [lateCount_append]
         have := lateCount_stopAttempt c r.stop
-        have := hvals (r.b - r.a).natAbs
+        have := hvals (rangeCount r.a r.b r.step)
         omega
   apply opOK_of_getElem?
   intro k dl hk
   have h1 := down_getElem? hk
-  show RangeAt r.a r.b r.p (rangeTrace r) k dl
+  show RangeAt r.a r.b r.step r.p (rangeTrace r) k dl
   unfold rangeAttempts at h1
   simp only at h1
-  have valueCase : ∀ t, k < (r.b - r.a).natAbs → r.ticks[k]? = some t →
-      RangeAt r.a r.b r.p (rangeTrace r) k (Ev.at t (.next (rangeVal r.a r.b k))) := by
+  have valueCase : ∀ t, k < rangeCount r.a r.b r.step → r.ticks[k]? = some t →
+      RangeAt r.a r.b r.step r.p (rangeTrace r) k (Ev.at t (.next (rangeVal r.a r.b r.step k))) := by
     intro t hlt ht
     have := h.neverEarly k t ht
     simp only [RangeAt, Ev.at, rangeVal, rangeTrace]
@@ -64,10 +64,10 @@ theorem range_model_clause (r : RangeRun) (h : RangeWF r) :
         obtain ⟨hkn, t, ht, rfl⟩ := range_vals_getElem? r _ k dl h1
         exact valueCase t hkn ht
       next hge =>
-        have hlen : ((r.ticks.take (r.b - r.a).natAbs).mapIdx (fun k t => Ev.at t (.next (rangeVal r.a r.b k)))).length
-            = (r.b - r.a).natAbs := by simp; omega
+        have hlen : ((r.ticks.take (rangeCount r.a r.b r.step)).mapIdx (fun k t => Ev.at t (.next (rangeVal r.a r.b r.step k)))).length
+            = rangeCount r.a r.b r.step := by simp; omega
         rw [hlen] at hge h1
-        cases hj : k - (r.b - r.a).natAbs with
+        cases hj : k - rangeCount r.a r.b r.step with
         | zero =>
           rw [hj] at h1; simp at h1; subst h1
           simp only [RangeAt, Ev.at]; left; omega
@@ -85,7 +85,7 @@ theorem range_model_clause (r : RangeRun) (h : RangeWF r) :
         exact cancelledBy_stopCut _ c x r.unsub (by simp [rangeTrace, hs]) hcx
 
 theorem range_model_accepts (r : RangeRun) (h : RangeWF r) :
-    accepts { op := .rangeWithInterval, d := r.p, a := r.a, b := r.b } (rangeTrace r) = true :=
+    accepts { op := .rangeWithInterval, d := r.p, a := r.a, b := r.b, step := r.step } (rangeTrace r) = true :=
   decide_eq_true (range_model_clause r h)
 
 -- non-vacuity: 5 down to 3 (exclusive), period 10, late ticks
